@@ -1208,7 +1208,17 @@ impl<'a> Evaluator<'a> {
                     }
                 }
             }
-            Expr::MethodCall(mc) if ["push", "append", "extend", "insert", "remove", "push_str", "clear", "truncate", "pop", "sort", "reverse", "retain", "dedup", "swap", "drain"].contains(&mc.method.to_string().as_str())
+            // an iterator held in a variable is consumed by `next()`
+            Expr::MethodCall(mc) if mc.method == "next" && mc.args.is_empty() && matches!(&*mc.receiver, Expr::Path(p) if p.path.segments.len() == 1)
+                && matches!(self.eval(&mc.receiver, env), Ok(Val::List(_))) =>
+            {
+                let place = self.place_of(&mc.receiver).unwrap();
+                match place_get_mut(env, &place) {
+                    Some(Val::List(l)) => Ok(if l.is_empty() { Val::none() } else { Val::some(l.remove(0)) }),
+                    _ => Err("iterator place lost".into()),
+                }
+            }
+            Expr::MethodCall(mc) if ["push", "append", "append_all", "extend", "insert", "remove", "push_str", "clear", "truncate", "pop", "sort", "reverse", "retain", "dedup", "swap", "drain"].contains(&mc.method.to_string().as_str())
                 && self.place_of(&mc.receiver).is_some()
                 && matches!(self.eval(&mc.receiver, env), Ok(Val::List(_)) | Ok(Val::Str(_))) =>
             {
@@ -1294,6 +1304,14 @@ impl<'a> Evaluator<'a> {
                             Ok(Val::Unit)
                         }
                         _ => Err("String::truncate: bad arguments".into()),
+                    },
+                    // token streams modelled as text: append / append_all / extend add the other stream's text
+                    (Val::Str(st), "append") | (Val::Str(st), "append_all") | (Val::Str(st), "extend") => match args.get(0) {
+                        Some(Val::Str(o)) | Some(Val::Sym(o)) => {
+                            st.push_str(o);
+                            Ok(Val::Unit)
+                        }
+                        o => Err(format!("append on text: bad arguments {:?}", o.map(|x| x.show()))),
                     },
                     (Val::Str(st), "push_str") => match args.get(0) {
                         Some(Val::Str(o)) => {
@@ -2242,7 +2260,34 @@ pub fn subst_quote(q: &[crate::quotex::QTok], env: &Env) -> String {
                 Some(Val::Opaque(_)) | None => format!("#{}", v),
                 Some(o) => o.show(),
             },
-            QTok::Rep(b, sep) => format!("#({}){}*", subst_quote(b, env), sep.map(|c| c.to_string()).unwrap_or_default()),
+            QTok::Rep(b, sep) => {
+                // `#(#list),*`: expanded when the interpolated variables are lists of known items
+                fn interps(q: &[crate::quotex::QTok], out: &mut Vec<String>) {
+                    for t in q {
+                        match t {
+                            crate::quotex::QTok::Interp(v) => out.push(v.clone()),
+                            crate::quotex::QTok::Group(_, b) | crate::quotex::QTok::Rep(b, _) => interps(b, out),
+                            _ => {}
+                        }
+                    }
+                }
+                let mut vars = vec![];
+                interps(b, &mut vars);
+                let lists: Vec<(String, Vec<Val>)> = vars.iter().filter_map(|v| match env.get(v) { Some(Val::List(l)) => Some((v.clone(), l.clone())), _ => None }).collect();
+                if !lists.is_empty() && lists.iter().all(|(_, l)| l.len() == lists[0].1.len()) {
+                    let mut parts = vec![];
+                    for i in 0..lists[0].1.len() {
+                        let mut e2 = env.clone();
+                        for (v, l) in &lists {
+                            e2.insert(v.clone(), l[i].clone());
+                        }
+                        parts.push(subst_quote(b, &e2));
+                    }
+                    parts.join(&sep.map(|c| c.to_string()).unwrap_or_else(|| " ".to_string()))
+                } else {
+                    format!("#({}){}*", subst_quote(b, env), sep.map(|c| c.to_string()).unwrap_or_default())
+                }
+            }
             QTok::Group(d, b) => {
                 let (o, c) = match d {
                     '(' => ("(", ")"),
